@@ -423,6 +423,7 @@ class Interp:
                     cell = val.cell; path = list(val.path); val = self.read_ref(val); continue
                 if isinstance(val, VObj) and val.kind == 'box':
                     cell = val.cell; path = []; val = cell.val; continue
+                if type(val).__name__ == 'StrS': continue          # Box<str> / String: the string is its own pointee
                 raise Unsupported(f'ref through {val!r}')
             if p[0] == 'downcast': continue
             if p[0] == 'index':
@@ -454,6 +455,7 @@ class Interp:
             if m.group(2) == 'BITS': return VInt({'8': 8, '16': 16, '32': 32, '64': 64, '128': 128, 'size': 64}[m.group(1)[1:]], 'u32')
             return VInt(lo if m.group(2) == 'MIN' else hi, m.group(1))
         if t == '()': return VUnit()
+        if re.match(r'^(?:std::marker::|core::marker::)?PhantomData(::<.*>)?$', t): return VStruct('PhantomData', [])
         m = re.match(r'^b"(.*)"$', t, re.S)
         if m:      # byte string literal: &[u8; N]
             return VRef(Cell(VTuple([VInt(ord(ch) & 0xff, 'u8') for ch in decode_rust_str(m.group(1))])), [])
@@ -788,10 +790,16 @@ class Interp:
                     j = match_angle(callee, 0)
                     mm = re.match(r'^::(\w+)', callee[j + 1:]) if j > 0 else None
                     if mm:
-                        selfty = callee[1:j].split(' as ')[0]
+                        selfty = callee[1:j].rsplit(' as ', 1)[0]
                         seg = re.sub(r'<.*$', '', selfty.split('::')[-1])
                         hits = [b for k_, bl in self.bodies.items() if k_.endswith('::' + mm.group(1)) for b in bl
                                 if b.kind == 'fn' and (seg in (b.ret or '') or any(seg in t for _, t in b.args))]
+                        if len(hits) > 1:
+                            parts = re.sub(r"<'\w+>", '', selfty).split('::')
+                            if len(parts) >= 2:
+                                prev = re.sub(r'<.*$', '', parts[-2])
+                                narrowed = [b for b in hits if f'::{prev}::' in b.name]
+                                if narrowed: hits = narrowed
                         if len(hits) == 1 and len(seg) > 3: cands = hits
                 self.call_cache[callee] = cands
             if len(cands) > 1:
